@@ -70,6 +70,7 @@ type deferRec struct {
 	args  []Value
 	fnv   Value
 	instr ssa.Instruction
+	inLoop bool // registered inside a loop: may run any number of times with arguments of any iteration
 }
 
 type Frame struct {
@@ -97,6 +98,7 @@ type Frame struct {
 	inlTag  string
 	freeVals []Value
 	allocSites []allocSite
+	inDefers int // >0 while the deferred calls of this frame are being executed
 }
 
 type retRec struct {
@@ -194,7 +196,13 @@ func (e *Enc) valTerm(x Value, t types.Type) Term {
 			return sym(c, SRef)
 		}
 		e.predeclare(n, fmt.Sprintf("(declare-fun %s (%s) %s)", n, strings.Join(sorts, " "), SRef))
-		return app(SRef, n, x.Addr.keys...)
+		t := app(SRef, n, x.Addr.keys...)
+		if k := "nz:" + t.S; !e.predecl[k] {
+			// the address of an element is never nil
+			e.predecl[k] = true
+			e.assume(not(eq(t, i64(0))))
+		}
+		return t
 	}
 	if x.T.S == "" {
 		if x.Clo != nil {
@@ -244,6 +252,34 @@ func (e *Enc) loadAddr(st *State, a *Addr) Term {
 		}
 	}
 	return cur
+}
+
+// entryClosure assumes one instance of the closure of the entry heap: a reference (or slice region) stored at entry
+// in an object that existed at entry also existed at entry. Without it a pointer loaded after the function has
+// allocated something could alias the new object although the location it was loaded from has not been written.
+func (e *Enc) entryClosure(entry *State, a *Addr) {
+	if entry == nil || a == nil || len(a.path) != 0 || len(a.keys) == 0 || len(a.keys) > 2 || a.typ == nil {
+		return
+	}
+	var isSlice bool
+	switch a.typ.Underlying().(type) {
+	case *types.Pointer, *types.Map, *types.Chan:
+	case *types.Slice:
+		isSlice = true
+	default:
+		return
+	}
+	v0 := e.loadAddr(entry, a)
+	key := "ec:" + v0.String()
+	if e.predecl[key] {
+		return
+	}
+	e.predecl[key] = true
+	r := v0
+	if isSlice {
+		r = sReg(v0)
+	}
+	e.assume(implies(ule(a.keys[0], entry.wm), ule(r, entry.wm)))
 }
 
 func (e *Enc) updPath(cur Term, path []pathElem, v Term) Term {
@@ -789,6 +825,9 @@ func (f *Frame) instr(in ssa.Instruction) bool {
 			}
 		}
 		f.rets = append(f.rets, retRec{cond: f.guard, vals: rv, st: f.st})
+		if f.parent == nil && e.contract != nil && len(e.contract.Returns) > 0 {
+			f.returnAsserts(x, rv)
+		}
 		return true
 	case *ssa.RunDefers:
 		f.runDefers(x)
@@ -1007,6 +1046,9 @@ func (f *Frame) unop(x *ssa.UnOp) Value {
 			f.nilCheck(x, x.X, av.T)
 		}
 		raw := f.loadPtr(av, x.X.Type())
+		if a := f.ptrAddr(av, x.X.Type()); a != nil {
+			e.entryClosure(f.topFrame().entry, a)
+		}
 		t := e.define(f.name(x.Name()), raw)
 		if n, ok := e.globLen[raw.S]; ok {
 			// byte-slice literal global still holding its initial value: make the length syntactically constant
@@ -1416,4 +1458,53 @@ func (f *Frame) next(x *ssa.Next) Value {
 		}
 	}
 	return v
+}
+
+// returnAsserts: "at return : assert E" clauses of the contract, evaluated at this return statement with the
+// source-level locals in scope and the result names bound to the returned values. A clause that mentions a variable
+// which is not in scope at this return is not checked here (it must be checkable at one return at least).
+func (f *Frame) returnAsserts(x *ssa.Return, rv []Value) {
+	e := f.e
+	ct := e.contract
+	for ri := range ct.Returns {
+		rc := &ct.Returns[ri]
+		env := f.baseEnv(f.st)
+		for nm, v := range f.localsDominating(x.Block()) {
+			if _, isParam := f.paramNames()[nm]; isParam {
+				continue
+			}
+			f.bindLocal(env, nm, v, f.st, false)
+		}
+		for nm, v := range f.localsBefore(x) {
+			if _, isParam := f.paramNames()[nm]; isParam {
+				continue
+			}
+			f.bindLocal(env, nm, v, f.st, false)
+		}
+		if len(ct.Results) == len(rv) {
+			for i, rn := range ct.Results {
+				env.vars[rn] = SpecVal{T: rv[i].T, Typ: x.Results[i].Type(), V: rv[i]}
+			}
+		}
+		t, err := env.evalBool(rc.Cl.Expr)
+		oname := fmt.Sprintf("%s#return-assert:%s", shortFuncName(f.fn), clauseLabel(rc.Cl, ri))
+		if err != nil {
+			if strings.Contains(err.Error(), "unknown identifier") {
+				continue
+			}
+			e.specError(fmt.Sprintf("%s: %v", oname, err))
+			continue
+		}
+		props := rc.Props
+		if len(props) == 0 {
+			props = ct.Props
+		}
+		o := e.addObl("return-assert", oname, f.guard, t, props)
+		o.Text = rc.Cl.Text
+		o.Pos = e.p.posString(x.Pos())
+		if e.returnHits == nil {
+			e.returnHits = map[int]int{}
+		}
+		e.returnHits[ri]++
+	}
 }
